@@ -180,9 +180,9 @@ namespace adept {
     // function
     uIndex register_gradient() {
       uIndex return_val;
-#ifdef ADEPT_RECORDING_PAUSABLE
-      if (is_recording()) {
-#endif
+      // Note that registration is independent of whether recording
+      // has been paused: an object created while paused may outlive
+      // the pause, so it needs a gradient index of its own
 	n_gradients_registered_++;
 	if (gap_list_.empty()) {
 	  // Add to end of gradient vector
@@ -207,29 +207,13 @@ namespace adept {
 	    gap_list_.pop_front();
 	  }
 	}
-#ifdef ADEPT_RECORDING_PAUSABLE
-      }
-      else {
-	return_val = 0;
-      }
-#endif
       return return_val;
     }
 
     // Register n gradients and return the index of the first one
     uIndex register_gradients(const uIndex& n)  {
-      uIndex return_val;
-#ifdef ADEPT_RECORDING_PAUSABLE
-      if (is_recording()) {
-#endif
-	return_val = do_register_gradients(n);
-#ifdef ADEPT_RECORDING_PAUSABLE
-      }
-      else {
-	return_val = 0;
-      }
-#endif
-      return return_val;
+      // As above, registration is independent of pausing
+      return do_register_gradients(n);
     }
 
 
